@@ -473,9 +473,27 @@ impl IncrementalEngine {
             {
                 // Validate that matched fact still exists (hasn't been retracted)
                 if let Some(matched_handle) = activation.matched_fact_handle {
-                    if self.working_memory.get(&matched_handle).is_none() {
-                        // Fact was retracted, skip this activation
-                        continue;
+                    match self.working_memory.get(&matched_handle) {
+                        None => {
+                            // Fact was retracted, skip this activation
+                            continue;
+                        }
+                        Some(fact) => {
+                            // The fact may have been updated since this activation was created:
+                            // fire only if the rule's condition still holds for its current contents.
+                            let mut current = TypedFacts::new();
+                            for (key, value) in fact.data.get_all() {
+                                current.set(format!("{}.{}", fact.fact_type, key), value.clone());
+                            }
+                            current.set_fact_handle(fact.fact_type.clone(), fact.handle);
+                            if !super::network::evaluate_rete_ul_node_typed(
+                                &rule.node,
+                                &current,
+                                &self.custom_functions,
+                            ) {
+                                continue;
+                            }
+                        }
                     }
                 }
 
